@@ -528,4 +528,42 @@ class BestMode(es.E2EStream):
         return k
 
 
-STREAMS = [ModesStream(), RunModel(), SharedRunModel(), BestMode()]
+# ---- in process: the multi-pass chain on dense lattices (C07's crash search stream): model correspondence for results_resolve / the join
+# where labels around the junction match coincidentally, plus the join clauses that can be read off the rows
+from . import C07 as _c07
+
+
+class MultiJoin(_c07.MultiCrash):
+    name = 'multi_join'
+    quick_n, thorough_n = 2500, 16000
+
+    def oracle(self, case, out):
+        errs = []
+        if 'row1' not in out or 'exc' in out or 'stop' in out:     # resolve was not reached
+            return errs
+        parts = [out['row1']] + out.get('rows2', [])
+        union = set(tuple(p) for r in parts for p in r[8])
+        for j in out.get('joined', []):
+            ps = set(tuple(p) for p in j[8])
+            if not ps <= union:
+                errs.append('joined row has pairs that are in neither part: %s' % sorted(ps - union))
+            a = out['row1']
+            cands = [b for b in out.get('rows2', []) if b[6] == a[6] and b[1] == a[1] and abs(max(a[4], b[4]) - min(a[5], b[5])) <= case['maxdiff'] * 10]
+            if not cands:
+                errs.append('a joined row exists although no second-pass row passes the join guard (same reference and strand, reference gap <= %s)' % case['maxdiff'])
+        key = lambda r: json.dumps(r)
+        single = [key(r) for r in parts]
+        sep = [key(r) for r in out.get('separate', [])]
+        if out.get('joined'):
+            if len(out['joined']) != 1 or len(parts) - len(sep) != 2 or any(x not in single for x in sep):
+                errs.append('%d joined and %d un-joined rows from %d single-pass rows: every single-pass row must be un-joined or part of exactly one joined row'
+                            % (len(out['joined']), len(sep), len(parts)))
+        elif sorted(sep) != sorted(single):
+            errs.append('no joined row, but the un-joined rows are not exactly the single-pass rows (%d vs %d)' % (len(sep), len(parts)))
+        return errs[:4]
+
+    def finding(self, case, out, viol):
+        return None
+
+
+STREAMS = [ModesStream(), RunModel(), SharedRunModel(), BestMode(), MultiJoin()]
